@@ -3077,7 +3077,10 @@ class TypeBlocks(ContainerOperand):
             axis: Dimension to drop, where 0 will drop rows and 1 will drop columns based on the condition function applied to a Boolean array.
         '''
         # get a unified boolean array; as isna will always return a Boolean, we can simply take the first block out of consolidation
-        unified = next(self.consolidate_blocks(isna_array(b) for b in self._blocks))
+        if self._blocks:
+            unified = next(self.consolidate_blocks(isna_array(b) for b in self._blocks))
+        else: # no columns: nothing to consolidate
+            unified = np.empty(self._shape, dtype=DTYPE_BOOL)
 
         # a single 1D block is one column: process it as 2D so that the condition is applied along the requested axis
         unified = column_2d_filter(unified)
